@@ -29,6 +29,7 @@ def run(ctx):
     ctx.do(n1, ["geometry_tools/representation.py"], scope=ctx.scope(ENTRIES))
     ctx.do(CA.rule_c2, "Representation", scope=ctx.scope(ENTRIES))
     ctx.do(CA.rule_cls1, "Representation")
+    ctx.do(SI.rule_tp1)
     ctx.do(R.rule_zs1)
     ctx.do(SI.rule_gen_order)
     ctx.do(SI.rule_elt1)
